@@ -27,10 +27,35 @@ def cli_history(rnd, label):
     return "\n".join(L) + "\n"
 
 
+def cli_gauss(rnd, label):
+    """Global grids with the Gauss families and their real-valued parameters (-alpha, -beta with fractional values), optional
+    transform and values: the parameters travel through the option parser and the grid file"""
+    d = rnd.choice([1, 2, 2])
+    rule = rnd.choice(["gauss-jacobi", "gauss-jacobi", "gauss-jacobi-odd", "gauss-gegenbauer", "gauss-gegenbauer-odd", "gauss-laguerre", "gauss-hermite", "gauss-hermite-odd", "gauss-legendre", "gauss-chebyshev2"])
+    alpha = rnd.choice([0.5, 1.5, 0.25, 2.0, 1.0, 0.75])
+    beta = rnd.choice([0.5, 1.5, 0.25, -0.5, 2.0, 0.75]) if "jacobi" in rule else 0.0
+    t = rnd.choice(["level", "iptotal", "qptotal", "hyperbolic"])
+    depth = rnd.randint(1, 3) + (2 if t in ("iptotal", "qptotal") else 0)
+    outs = rnd.choice([1, 1, 2])        # (the tool refuses -outputs 0 although its message says zero is allowed; C16 speaks of scripts the tool accepts)
+    L = ["SCEN " + label, "make global %d %d %d %s %s 0 0 %g %g" % (d, outs, depth, t, rule, alpha, beta)]
+    if rnd.random() < 0.4:
+        if "laguerre" in rule or "hermite" in rule:
+            a = [rnd.choice([-1, 0, 2]) for _ in range(d)]
+            b = [rnd.choice([1, 2, 4, 0.5]) for _ in range(d)]
+        else:
+            a = [rnd.choice([-2, -1, 0, 1]) for _ in range(d)]
+            b = [x + rnd.choice([1, 2, 4]) for x in a]
+        L.append("transform %d %s %d %s" % (d, " ".join(map(str, a)), d, " ".join(map(str, b))))
+    if outs > 0:
+        L.append("load 1")
+    return "\n".join(L) + "\n"
+
+
 def run(ctx):
     rnd = random.Random(ctx.seed + 1616)
     n = 150 if ctx.quick else 700
     scens = [cli_history(rnd, "u%d" % i) for i in range(n)]
+    scens += [cli_gauss(rnd, "j%d" % i) for i in range(n // 5)]
     gl.run_grid(ctx, [("cli", scens)], 0, "C16", driver="cli_replay.cpp", chunk=15, timeout=600, own_all=True)
     ctx.assume("every scripted action runs through the API on an object and through the tasgrid executable on a grid file (binary and ASCII grid files alternate per scenario); the state read back from the tool's grid file is what TLC validates against GridTrace.tla; the tool's grid file must equal byte for byte the API object written in the same format; the query commands (-gp -gn -gq -gi -e -i -gc, candidate lists of -gcp) are compared number by number (ASCII matrix files, 17 digits) with the API results at 1e-14")
     ctx.assume("commands without a counterpart in this driver are not exercised: finishConstruction (the tool has no command), copies, scale-correction files, exotic quadrature, custom rule files, the MATLAB work-folder protocol")
